@@ -134,6 +134,11 @@ def main():
         print("REFUSING: /repo is not clean:\n", out)
         return 2
     detected = {}
+    # evidence files describe runs on the unchanged tree: keep them out of these runs
+    ev_backup = f"/tmp/wtc/evidence-backup-{a.name}"
+    shutil.rmtree(ev_backup, ignore_errors=True)
+    os.makedirs("/tmp/wtc", exist_ok=True)
+    shutil.copytree("/verif/evidence", ev_backup)
     try:
         rc, out = sh(f"git apply {patch}", cwd="/repo")
         if rc != 0:
@@ -149,6 +154,9 @@ def main():
             shutil.rmtree(os.path.join("/verif/replay", prop, "found"), ignore_errors=True)
     finally:
         sh("git checkout -- . && git clean -fdq", cwd="/repo")
+        shutil.rmtree("/verif/evidence", ignore_errors=True)
+        shutil.copytree(ev_backup, "/verif/evidence")
+        shutil.rmtree(ev_backup, ignore_errors=True)
     result["detected"] = detected
     result["caught"] = any(v["exit"] == 1 for v in detected.values())
     dst = os.path.join("/verif/seeded", a.name)
